@@ -81,3 +81,14 @@ class Raiser(Command):
         elif kwargs["Kind"] == "plain":
             raise ValueError("no line here")
         return numpy.ma.array([1.0])
+
+
+class Dump(_User):
+    """Writes the values it was given to the file named by OutFileName (what a model run through the command-line tool delivered)."""
+    inputs = dict(_User.inputs)
+    output = _User.output
+
+    def execute(self, **kwargs):
+        with open(kwargs["OutFileName"], "w", encoding="utf-8") as f:
+            json.dump({k: _val(v) for k, v in kwargs.items() if k not in ("OutFileName", "Metadata")}, f)
+        return ("dumped",)
